@@ -10,7 +10,7 @@ let rd_sys r =
 let err_name = function
   | EUse -> "EUse" | EDur -> "EDur" | EZeroDiv -> "EZeroDiv" | EThick -> "EThick" | EBandwidth -> "EBandwidth"
   | EArgs -> "EArgs" | EGradAmp -> "EGradAmp" | ESlewUp -> "ESlewUp" | ESlewDown -> "ESlewDown"
-  | EEnvLen -> "EEnvLen"
+  | EEnvLen -> "EEnvLen" | ETrapTimes -> "ETrapTimes"
 
 (* unreduced printing of the long lists (the harness reduces; Coq's gcd on the inductive [positive] is slow) *)
 let tok_raw (x : q) : string =
